@@ -53,4 +53,7 @@ func init() {
 	metas["C08"] = Meta{Rule: metas["C08"].Rule, Assumptions: metas["C08"].Assumptions, ExhaustivePart: "all shapes 0..6 x 0..6 (the per-shape script samples rectangles and spans)"}
 	meta("C03", "case i = one PRNG-generated scenario: element type (int/string/struct), universe size 1..8, implementation pairing (maps|sync2 x maps|sync2), two construction histories of 0..40 calls each (constructors with duplicates, Add, Remove, Has, Len/Slice, Clone-and-swap), then the four binary operations in both directions (10%: argument is the receiver itself), two AddSet/RemoveSet calls and CartesianProduct; NON-TRIVIAL = A and B not both empty at the end; distinctness = hash of the full call sequence")
 	meta("C06", "even case = List scenario: 2..3 lists (zero value or New), 1..120 calls with element arguments from every handle ever issued (live here / live elsewhere / removed / never inserted); odd case = Ring scenario: 1..3 initial rings (NewRing(-1..7) or zero value), 1..80 calls; NON-TRIVIAL = List: a call received a non-member element or a list was pushed onto itself; Ring: at least one Link or Unlink; distinctness = hash of the call sequence")
+	meta("C04", "seq: case = 1..300 sequential calls over 1..6 keys (+misses on absent keys); tierb: case = random sequential prefix of 0..12 calls, then 2..4 workers x 1..6 calls over 1..3 keys under one seeded serialized schedule (strategy uniform/sticky/PCT); lin: case = prefix, then 2..8 goroutines x 20..120 calls or 9..16 x 5..30 over 1..4 keys, free-running with a random yield policy; race: 2..64 goroutines x 10..150 calls, unrecorded; NON-TRIVIAL = seq: >= 5 calls; tierb: the schedule has >= 1 worker switch between hook sites; lin: >= 1 pair of calls by different clients overlaps in time; race: always; distinctness = schedule hash (tierb) / history hash (seq, lin) / case parameters (race)",
+		"tierb explores interleavings at the granularity of the 33 hook sites in sync2/map.go under sequential consistency")
+	meta("C05", "tierb: case = sequential prefix (0..12 Add/Remove/Has-miss/Len), then 2..4 workers x 1..6 set calls over 1..3 values under one seeded serialized schedule; lin: 2..8 free-running goroutines x 10..120 calls over 1..4 values; race: 2..64 goroutines unrecorded; 20% of cases include multi-element AddSet/RemoveSet (conservation only); NON-TRIVIAL = tierb: >= 1 worker switch; lin/race: always (>= 2 goroutines on a shared set); distinctness = schedule hash / case parameters")
 }
